@@ -39,7 +39,7 @@ def run(ctx):
     for f in facts.need(RS + "_time_rotation", "A", floor=2):
         r1_time(ctx, f)
     for f in facts.need(RS + "_rotate_files", "A", floor=2):
-        r1_name(ctx, f)
+        r1_name(ctx, f, facts)
     r2(ctx, facts)
     for f in facts.need(RS + "_calculate_initial_rotation_tp", "A", floor=2):
         r3_initial(ctx, facts, f)
@@ -190,22 +190,15 @@ def local_from_calc(f, expr, calc):
     return any(any(in_subtree(c, s) for c in calc) for s in srcs)
 
 
-def r1_name(ctx, f):
+def r1_name(ctx, f, facts=None):
     site = "RotatingSink<%s>::_rotate_files" % inst(f)
-    fd = f.calls(r"::format_datetime_string$")
-    ok = len(fd) >= 2 and all(is_this_field(strip(c["args"][0], casts=True), "_open_file_timestamp") for c in fd) and \
-        all(any(is_call(x, r"::timezone$") for x in walk(c["args"][1])) for c in fd)
+    from rules.c14 import suffix_sites
+    sites = suffix_sites(facts, f) if facts is not None else {}
+    ok = len(sites) >= 2 and all(v[1] and v[2] for v in sites.values())
     ctx.ob("C15.R1d", site + ":suffix-from-open-time", ok,
            "the date / date-time suffix of a rotated file is rendered from the moment that file was opened, in the sink's time zone "
-           "(%d naming site(s))" % len(fd), fn=f)
-    schemes = set()
-    for c in fd:
-        ifs = [a for a in f.ancestors(c) if a["k"] == "IfStmt"]
-        if ifs:
-            for x in walk(ifs[0]["cond"]):
-                if x["k"] == "DeclRefExpr" and x.get("dk") == "EnumConstant" and "RotationNamingScheme" in x["name"]:
-                    lit = [y["str"] for y in walk(c["args"][2]) if y["k"] == "StringLiteral"]
-                    schemes.add((x["name"].split("::")[-1], lit[0] if lit else None))
+           "(%d naming site(s))" % len(sites), fn=f)
+    schemes = {(k, v[0]) for k, v in sites.items()}
     ctx.ob("C15.R1e", site + ":scheme-formats", schemes == {("Date", "%Y%m%d"), ("DateAndTime", "%Y%m%d_%H%M%S")},
            "naming scheme Date uses %%Y%%m%%d and DateAndTime %%Y%%m%%d_%%H%%M%%S: %s" % sorted(schemes), fn=f)
 
@@ -511,7 +504,8 @@ def r5_datetime_suffix(ctx, facts):
     ctx.ob("C15.R5b", "FileSink::format_datetime_string:pattern-and-result", patt and from_buf,
            "strftime is given the caller's pattern and the returned string is built from the buffer it wrote (%s, %s)" % (patt, from_buf), fn=f)
     n = 0
-    for r in facts.fn(RS + "_rotate_files", "A") + facts.fn(RS + "_clean_and_recover_files", "A"):
+    # every member function of the rotating sink that renders a suffix (the naming code may live in a helper of _rotate_files)
+    for r in [x for x in facts.fns if x.config == "A" and (x.cls or "").startswith("quill::RotatingSink<") and not x.rec.get("parent")]:
         for c in r.calls(r"FileSink::format_datetime_string$"):
             n += 1
             ok = is_call(strip(c["args"][1], casts=True), r"FileSinkConfig::timezone$")
